@@ -97,6 +97,10 @@ def cases(rng, tier):
         if m >= 2 and rng.random() < 0.4:
             seqs[-1] = gen.permute(seqs[0], rng)          # same composition: identical coordinates, its own marker and label
         labels = ["s%d" % i for i in range(m)] if rng.random() < 0.7 else []
+        if labels and m >= 2 and rng.random() < 0.35:
+            # some sequences deliberately left unlabelled (an empty string), also BEFORE labelled ones
+            for i_ in rng.sample(range(m), rng.randint(1, m - 1)):
+                labels[i_] = ""
         entry = rng.choice(["pl_show_multi_phase2", "pl_save_multi_phase2", "pl_show_multi_uversky2", "pl_save_multi_uversky2"])
         a = dict(kw, seqs=seqs, labels=labels, fmt=rng.choice(["png", "pdf"]))
         a.pop("label", None)
@@ -325,6 +329,8 @@ def judge(case, reals, gens, specs):
             texts = [t[0] for t in d["texts"]]
             if texts != list(a["labels"]):
                 bad("label texts %r, requested %r (given as %s)" % (texts, a["labels"], a.get("labels_as", "list")))
+            elif len(texts) == len(got) and any(t[1] is not None and not (near(t[1], g_[0]) and near(t[2], g_[1] + 0.01)) for t, g_ in zip(d["texts"], got)):
+                bad("labels %r sit at %r, the markers of their sequences at %r" % (texts, [(t[1], t[2]) for t in d["texts"]], got))
         lab = a.get("label", "")
         if "seq" in a or "x" in a:
             texts = [t[0] for t in d["texts"]]
